@@ -193,7 +193,7 @@ def build(reg):
     # loop 3 renumbers the position indices after the removal (C08): it writes cell.local_id_ only
     reg.add_loop(LoopContract('solver::run_iteration', 3, lambda L: [], modifies=['cell.local_id_']))
     # V7
-    reg.add(Contract('solver::solver', PROP, post=post_initial_pressure, slice_loop=1, name='solver::solver::<initial pressure loop>'))
+    reg.add(Contract('solver::solver', PROP, signature='global_simulation_parameters', post=post_initial_pressure, slice_loop=1, name='solver::solver::<initial pressure loop>'))
 
 
 EXPLANATION = ("Contracts on the real cell-cycle code: update_target_volume (Vt' = max(Vt + dt*g, Vmin)), update_pressure (p = min(-K ln(V/Vt), pmax), "
